@@ -145,14 +145,14 @@ def run(model, rep, tier):
     rep.check(len(ser) == 1 and len(rb) == 1 and cfg.edge_dominated(rb[0].id, {(ser[0].id, "t")}), "R-13.2", PM, where(pm, pm.node),
               "serial regression detected with RFC 1982 arithmetic (dns.serial.Serial)", "serial regression test no longer uses dns.serial.Serial(...) < self.serial", stmt="serial-compare")
     # final SOA condition
-    fin = [tt for tt in cfg.nodes if tt.kind == "test" and " ".join(src(tt.ast.test).split()) == "rdataset == self.soa_rdataset and (not self.incremental or self.delete_mode)"]
+    fin = [tt for tt in cfg.nodes if tt.kind == "test" and isinstance(tt.ast, ast.If) and pat.match(pat.parse_expr("rdataset == self.soa_rdataset and (not self.incremental or self.delete_mode)"), tt.ast.test, pat.Env())]
     rep.check(len(fin) == 1, "R-13.2", PM, where(pm, pm.node), "end detection: SOA equals the first SOA and (AXFR or in delete mode)",
               "end-of-transfer condition changed", stmt="final-soa-condition")
     if fin:
         body = "\n".join(src(s) for s in fin[0].ast.body)
-        rep.check("if self.expecting_SOA:\n    raise" in body and "if self.incremental and self.serial != soa.serial:\n    raise" in body, "R-13.2", PM, where(pm, fin[0].ast),
+        rep.check(pat.has(fin[0].ast, "if self.expecting_SOA:\n    raise ...") and pat.has(fin[0].ast, "if self.incremental and self.serial != soa.serial:\n    raise ..."), "R-13.2", PM, where(pm, fin[0].ast),
                   "empty IXFR and wrong-final-serial are rejected before done", "empty-IXFR / final-serial checks missing at the final SOA", stmt="final-soa-checks")
-        ixm = [n for n in ast.walk(pm.node) if isinstance(n, ast.If) and " ".join(src(n.test).split()) == "soa.serial != self.serial"]
+        ixm = [n for n in ast.walk(pm.node) if isinstance(n, ast.If) and atoms(normalise_compare(n.test)) == [A("soa.serial", "!=", "self.serial")]]
         rep.check(bool(ixm) and any(isinstance(s, ast.Raise) for s in ixm[0].body), "R-13.2", PM, where(pm, pm.node), "IXFR deletion set must start at the current serial",
                   "IXFR base serial mismatch is no longer rejected", stmt="base-serial")
     # header checks precede any effect
